@@ -644,6 +644,7 @@ type recQ struct {
 	serial bool // serialise enqueues with the other wrapper calls (C04 layer W: record order = queue order)
 	items  []qItem
 	rejected []qItem // items the queue refused: the library must have closed them
+	objs   map[int]any // submission -> the job object the library put into the queue (a job handle too)
 	qi     int
 	lens   []lenObs
 	recLen bool
@@ -747,7 +748,15 @@ func (r *recQ) Dequeue() (any, bool) {
 
 // remember/forget map queued items to submissions without calling into the
 // library (its accessors contain yield points).
-func (r *recQ) remember(item any, sub int) { r.items = append(r.items, qItem{item, sub}) }
+func (r *recQ) remember(item any, sub int) {
+	r.items = append(r.items, qItem{item, sub})
+	if sub >= 0 {
+		if r.objs == nil {
+			r.objs = map[int]any{}
+		}
+		r.objs[sub] = item
+	}
+}
 
 func (r *recQ) forget(item any) int {
 	for i, x := range r.items {
